@@ -328,7 +328,7 @@ def run(ctx):
             if not any(scan_.ev_reaches({'_b': s2, '_i': -1}, st) or st['_b'] == s2 for st in stores_):
                 continue
             # only the last test of `dirty` in front of the store counts: no other dirty-test between
-            if any(k_ == 'dirty' for st in stores_ for bb in scan_.reachable_from(s2) if st['_b'] in scan_.reachable_from(bb)
+            if any(k_ == 'dirty' for st in stores_ for bb in (scan_.reachable_from(s2) | {s2}) if st['_b'] in scan_.reachable_from(bb)
                    for ii in range(len(scan_.blocks[bb]['succ'])) for k_, p_, a_ in scan_.edge_facts(bb, ii)):
                 continue
             nd_ += 1
